@@ -7,6 +7,7 @@ import (
 	"go/parser"
 	"go/token"
 	"go/types"
+	"os"
 	"regexp"
 	"strconv"
 	"strings"
@@ -132,6 +133,9 @@ func (x *Exec) evalSpec(env *SpecEnv, expr string) (term string, err error) {
 		}
 	}()
 	expr = env.expandLets(expr)
+	saveSink := x.specSink
+	x.specSink = env.s
+	defer func() { x.specSink = saveSink }()
 	e, perr := parser.ParseExpr(preprocessSpec(expr))
 	if perr != nil {
 		return "", fmt.Errorf("%s: cannot parse %q: %v", env.where, expr, perr)
@@ -862,7 +866,9 @@ func (x *Exec) evalPure1(s *State, fn *ssa.Function, args []*Val) *Val {
 	x.con = nil // no obligations inside specification evaluation
 	savePr := x.pruner
 	x.pruner = nil // branches of a pure callee are merged into one term anyway
-	defer func() { x.pruner = savePr }()
+	saveNN := x.noName
+	x.noName = os.Getenv("GOVC_PURE_CLOSED") != "" // optionally: closed terms, no fresh names
+	defer func() { x.pruner = savePr; x.noName = saveNN }()
 	resT := fn.Signature.Results()
 	var rt types.Type
 	if resT.Len() == 1 {
@@ -887,18 +893,28 @@ func (x *Exec) evalPure1(s *State, fn *ssa.Function, args []*Val) *Val {
 			newFacts = append(newFacts, implies(c, f))
 		}
 	})
-	seenDecl := map[string]bool{}
-	for _, d := range newDecls {
-		if !seenDecl[d] {
-			seenDecl[d] = true
-			s.decls = append(s.decls, d)
-		}
+	targets := []*State{s}
+	if x.specSink != nil && x.specSink != s {
+		// evaluated in another state (old(...)): the state whose queries use the result needs the names too
+		targets = append(targets, x.specSink)
 	}
-	seenFact := map[string]bool{}
-	for _, f := range newFacts {
-		if !seenFact[f] {
-			seenFact[f] = true
-			s.assume(f)
+	for _, tgt := range targets {
+		seenDecl := map[string]bool{}
+		for _, d := range tgt.decls {
+			seenDecl[d] = true
+		}
+		for _, d := range newDecls {
+			if !seenDecl[d] {
+				seenDecl[d] = true
+				tgt.decls = append(tgt.decls, d)
+			}
+		}
+		seenFact := map[string]bool{}
+		for _, f := range newFacts {
+			if !seenFact[f] {
+				seenFact[f] = true
+				tgt.assume(f)
+			}
 		}
 	}
 	x.con = saveCon
